@@ -226,7 +226,7 @@ def explore(ctx, factor, bs):
     for sheet in ("s", "c"):
         for form in L.exhaustive_small(sheet=sheet):
             one_case(ctx, L.render(form), tag="exh:")
-    ctx.notes["exhaustive"] = True
+    ctx.notes["exhaustive_substream"] = "a bounded sub-stream of this run is enumerated completely; the run as a whole samples an unbounded space"
     for case in L.directed_cases():
         one_case(ctx, case, tag="dir:")
         maybe_xlsx(ctx, case, 1.0)
